@@ -29,7 +29,7 @@ PROPS = {
     },
     "C12": {
         "timeouts_not_mine": True,
-        "lean_modules": ["Props.C20b", "Props.Gen20", "Props.GenT20", "Props.Gen12", "Props.GenT12", "Props.Gen15", "Props.GenT15", "Props.Gen15h", "Props.GenT15h"],
+        "lean_modules": ["Props.C20b", "Props.Gen20", "Props.GenT20", "Props.Gen12", "Props.GenT12", "Props.Gen15", "Props.GenT15", "Props.Gen15h", "Props.GenT15h", "Props.Gen14s"],
         # which link a typed number opens (and what a failing or slow hook leaves of the number being typed) is what the interface model says
         "correspondence_is_failure": {"ui": True},
         "groups": [{"name": "render", "quick": 3000, "thorough": 80000}, {"name": "mediaL", "quick": 600, "thorough": 20000, "workers": 12},
@@ -49,7 +49,7 @@ PROPS = {
     },
     "C14": {
         "timeouts_not_mine": True,
-        "lean_modules": ["Props.Cells", "Props.Clean", "Props.C01p", "Props.Gen14", "Props.Gen13", "Props.GenT13", "Props.Gen15h", "Props.GenT15h"],
+        "lean_modules": ["Props.Cells", "Props.Clean", "Props.C01p", "Props.Gen14", "Props.Gen13", "Props.GenT13", "Props.Gen15h", "Props.GenT15h", "Props.Gen14s"],
         "groups": [{"name": "C14", "quick": 3000, "thorough": 80000}, {"name": "render", "quick": 1200, "thorough": 30000},
                    # the same under configured colours (what style.Color/Red/Code/Highlight read is the configuration, not a constant)
                    {"name": "C14", "quick": 1500, "thorough": 40000, "workers": 6, "config": C14_COLOURS},
@@ -207,7 +207,7 @@ PROPS = {
         "shrink_budget": 4,
     },
     "C05": {
-        "lean_modules": ["Props.Facts04", "Props.Gen04", "Props.GenT04"],
+        "lean_modules": ["Props.Facts04", "Props.Gen04", "Props.GenT04", "Props.Gen11n"],
         "groups": [{"name": "C05", "quick": 160, "thorough": 6000, "workers": 16, "config": "[network]\ntimeout_seconds = 1\n"},
                    # the same faults under another timeout: the bounds are stated in the configured value, and a
                    # response that needs 1.0..1.4 s is a document there
@@ -246,7 +246,7 @@ PROPS = {
         # the Splicer model is the merge the property describes (take_is_trace, take_exactly_once):
         # a delivery that differs from it is an item out of place
         "correspondence_is_failure": {"splice": True},
-        "lean_modules": ["Props.Facts11", "Props.Gen11", "Props.GenT11"],
+        "lean_modules": ["Props.Facts11", "Props.Gen11", "Props.GenT11", "Props.Gen11n"],
         "groups": [{"name": "C11", "quick": 4000, "thorough": 150000},
                    # feeds over simulator-served actors and collections, through splicer.NewSplicer and the UI
                    {"name": "C07", "quick": 128, "thorough": 4000, "workers": 16},
@@ -280,7 +280,7 @@ PROPS = {
                         "the width theorems are about canonical styled text (what servitor's own style layer produces); hostile strings are covered by the correspondence check only"],
     },
     "C17": {
-        "lean_modules": ["Props.Gen17", "Props.Facts17", "Props.GenT17", "Props.Gen03m", "Props.GenT03m"],
+        "lean_modules": ["Props.Gen17", "Props.Facts17", "Props.GenT17", "Props.Gen03m", "Props.GenT03m", "Props.Gen17m"],
         "groups": [{"name": "C17", "quick": 8000, "thorough": 300000},
                    # the floating-point operations the translated GetNumber is interpreted with, against Go's own
                    {"name": "F64", "quick": 4000, "thorough": 400000},
@@ -359,7 +359,7 @@ PROPS = {
     },
     "C15": {
         "timeouts_not_mine": True,
-        "lean_modules": ["Props.C13s", "Props.Gen15", "Props.GenT15", "Props.Gen15h", "Props.GenT15h"],
+        "lean_modules": ["Props.C13s", "Props.Gen15", "Props.GenT15", "Props.Gen15h", "Props.GenT15h", "Props.Gen17m"],
         "groups": [{"name": "render", "quick": 2500, "thorough": 60000},
                    # documents rendered from several goroutines at once
                    {"name": "renderpar", "quick": 40, "thorough": 1500, "workers": 4},
@@ -400,7 +400,7 @@ MANIFEST_TEXT = {
         "technique": "Lean 4 proof (Clean invariant, mutual induction over the renderer) + differential correspondence with a safety predicate on every output",
     },
     "C12": {
-        "text": "Lean theorems: in every renderer each numbered element prints the index of its own target (ghost labels = 1..N in order, nesting included), the link list is independent of the width, and SelectLink(k) returns body link k, then attachment k-|links|, and nothing for any other integer; the numbers supplement prints select the right attachment. pub/link.go (the Link struct, NewLink, Alt, rating, SelectBestLink, SelectFirstLink, Select/SelectWithDefaultMediaType) is translated to Lean on every run (extract/go2lean5.go -> Generated/GoLink.lean) and proved equal to the link model (Props/Gen20.lean), so the selection theorems hold of the translated code (Props/GenT20.lean); the methods that give and take the numbers (Post.supplement, Post/Actor/Activity/Failure.SelectLink, Post.Media, Actor.ProfilePic/Banner) are translated too (extract/go2lean11.go -> Generated/GoSelect.lean), proved equal to Select.post / the link and presentation models without panics (Props/Gen12.lean), and the number printed for attachment i is proved to select attachment i on the translated code, every attachment numbered (Props/GenT12.lean). Otherwise tied to the code by differential correspondence on the renderers with generator-assigned labels and targets; label->target and 1..N predicates are evaluated on every implementation output.",
+        "text": "Lean theorems: in every renderer each numbered element prints the index of its own target (ghost labels = 1..N in order, nesting included), the link list is independent of the width, and SelectLink(k) returns body link k, then attachment k-|links|, and nothing for any other integer; the numbers supplement prints select the right attachment. pub/link.go (the Link struct, NewLink, Alt, rating, SelectBestLink, SelectFirstLink, Select/SelectWithDefaultMediaType) is translated to Lean on every run (extract/go2lean5.go -> Generated/GoLink.lean) and proved equal to the link model (Props/Gen20.lean), so the selection theorems hold of the translated code (Props/GenT20.lean); the methods that give and take the numbers (Post.supplement, Post/Actor/Activity/Failure.SelectLink, Post.Media, Actor.ProfilePic/Banner) are translated too (extract/go2lean11.go -> Generated/GoSelect.lean), proved equal to Select.post / the link and presentation models without panics (Props/Gen12.lean), and the number printed for attachment i is proved to select attachment i on the translated code, every attachment numbered (Props/GenT12.lean). Otherwise tied to the code by differential correspondence on the renderers with generator-assigned labels and targets; label->target and 1..N predicates are evaluated on every implementation output. style.superscript (the number printed behind a link) is translated on every run (extract/go2lean27.go -> Generated/GoGlue.lean) and proved equal to the model's digits for every n >= 0, injective and never empty; a negative argument panics (Props/Gen14s.lean).",
         "design_ref": "DESIGN.md §5 C12",
         "note": "Trusted: Lean kernel; correspondence check (testing); parsers; adjacency of numbers is not part of the statement.",
         "technique": "Lean 4 proof (ghost-label invariant by mutual induction over the renderer) + differential correspondence with a label oracle",
@@ -466,7 +466,7 @@ MANIFEST_TEXT = {
         "technique": "Lean 4 proof (well-founded recursion + functional induction; equivalence of the translated Go code with the model by induction on fuel) + differential correspondence",
     },
     "C11": {
-        "text": "Lean theorems for all source lists, timestamps and request sizes: each microharvest pops the first head with maximal timestamp; taking q items is a trace of pops, each source's delivered items followed by its remaining buffer equal its original buffer (exactly once, order kept); taking q1 then q2 equals taking q1+q2; skipping then taking equals dropping; the continuation is none exactly when the buffers ran dry. Tied to splicer.go twice: the element type of Splicer, clone, replenish (its goroutine fan-out accepted only when each closure touches s[i] alone, then run in index order), microharvest and Harvest are translated to Lean on every run (extract/go2lean7.go -> Generated/GoSplicer.lean; interface values as Options so the nil tests are translated; the external Container.Harvest and Timestamp comparisons as parameters) and proved equal to the model for splicers without nil elements and quantity + startingPoint < 2^62 (Props/Gen11.lean), with the C11 theorems restated on the translated Harvest (Props/GenT11.lean); and by differential correspondence over synthetic sources through a package-internal shim.",
+        "text": "Lean theorems for all source lists, timestamps and request sizes: each microharvest pops the first head with maximal timestamp; taking q items is a trace of pops, each source's delivered items followed by its remaining buffer equal its original buffer (exactly once, order kept); taking q1 then q2 equals taking q1+q2; skipping then taking equals dropping; the continuation is none exactly when the buffers ran dry. Tied to splicer.go twice: the element type of Splicer, clone, replenish (its goroutine fan-out accepted only when each closure touches s[i] alone, then run in index order), microharvest and Harvest are translated to Lean on every run (extract/go2lean7.go -> Generated/GoSplicer.lean; interface values as Options so the nil tests are translated; the external Container.Harvest and Timestamp comparisons as parameters) and proved equal to the model for splicers without nil elements and quantity + startingPoint < 2^62 (Props/Gen11.lean), with the C11 theorems restated on the translated Harvest (Props/GenT11.lean); the constructor NewSplicer is translated too (extract/go2lean27.go -> Generated/GoGlue.lean: one goroutine per input as a function of the cell s[i] that returns how many wg.Done() the path taken executed; Props/Gen11n.lean: every path that ends executes Done exactly once so the counter at wg.Wait() is 0, one fresh source per input in input order, equal to the model's Ui.newSplicer); and by differential correspondence over synthetic sources through a package-internal shim.",
         "design_ref": "DESIGN.md §5 C11",
         "note": "Trusted: Lean kernel; correspondence check (testing); value semantics for the cloned slice-of-structs; replenish goroutines as an order-preserving map.",
         "technique": "Lean 4 proof (induction over pops with a first-maximum invariant) + differential correspondence",
@@ -478,7 +478,7 @@ MANIFEST_TEXT = {
         "technique": "Lean 4 proof (induction over the wrap state machine) + differential correspondence",
     },
     "C17": {
-        "text": "Lean theorems for all JSON values, keys and accessors: each accessor returns exactly absent (missing/null/empty), wrong (other type/unparseable/out of range) or the faithful value; GetNumber returns n iff the double's exact value (computed from its bit pattern with integer arithmetic) is the natural number n < 2^64. Tied to object.go twice: GetAny, GetString, GetNumber (its floating-point operations interpreted on bit patterns, and those interpretations compared with Go's own arithmetic on every run), GetObject, GetList, GetTime, GetURL, GetMediaType and the getPrimitive instances they use are translated to Lean on every run (extract/go2lean3.go -> Generated/GoObject.lean) and proved equal to the model's accessors (Props/Gen17.lean); and (all accessors, GetMarkup included, and mime.go) by differential correspondence on values decoded by the real encoding/json; number exactness, empty-means-absent and sanitisation are also checked on every implementation output.",
+        "text": "Lean theorems for all JSON values, keys and accessors: each accessor returns exactly absent (missing/null/empty), wrong (other type/unparseable/out of range) or the faithful value; GetNumber returns n iff the double's exact value (computed from its bit pattern with integer arithmetic) is the natural number n < 2^64. Tied to object.go twice: GetAny, GetString, GetNumber (its floating-point operations interpreted on bit patterns, and those interpretations compared with Go's own arithmetic on every run), GetObject, GetList, GetTime, GetURL, GetMediaType and the getPrimitive instances they use are translated to Lean on every run (extract/go2lean3.go -> Generated/GoObject.lean) and proved equal to the model's accessors (Props/Gen17.lean); and (all accessors, GetMarkup included, and mime.go) by differential correspondence on values decoded by the real encoding/json; number exactness, empty-means-absent and sanitisation are also checked on every implementation output. GetMarkup is translated as well (extract/go2lean27.go -> Generated/GoGlue.lean: the accessors it calls, the default media type when the key is absent, the switch over the essence with the constructor of each case, the error of the default) and proved equal to the model's dispatch Obj.getMarkupKind with its decision table (Props/Gen17m.lean); hypertext.NewMarkup and markdown.NewMarkup are translated with the external parser / converter as a parameter.",
         "design_ref": "DESIGN.md §5 C17",
         "note": "Trusted: Lean kernel; correspondence check (testing); encoding/json, time.Parse, url.Parse as parameters/oracle tables.",
         "technique": "Lean 4 proof (case analysis over a JSON datatype, bit-exact IEEE-754 model) over a model proved equal to the Lean translation of the accessors regenerated on every run + differential correspondence",
